@@ -194,9 +194,20 @@ func (e *Exec) PreemptionsBefore(n int) int {
 // Explore enumerates all schedules with at most bound preemptions (bound < 0: unbounded), depth-first.
 // check is called for every complete execution. It returns the number of executions.
 func Explore(mk func() []func(), bound int, check func(e *Exec)) int {
-	n := 0
+	n, _ := ExploreBudget(mk, bound, -1, check)
+	return n
+}
+
+// ExploreBudget is Explore with a cap on the number of executions (budget < 0: none). complete reports
+// whether the whole schedule tree for that bound was enumerated.
+func ExploreBudget(mk func() []func(), bound int, budget int, check func(e *Exec)) (n int, complete bool) {
+	complete = true
 	var rec func(prefix []int)
 	rec = func(prefix []int) {
+		if budget >= 0 && n >= budget {
+			complete = false
+			return
+		}
 		e := Run(mk(), prefix)
 		n++
 		check(e)
@@ -216,5 +227,5 @@ func Explore(mk func() []func(), bound int, check func(e *Exec)) int {
 		}
 	}
 	rec(nil)
-	return n
+	return n, complete
 }
